@@ -60,6 +60,7 @@ mod verif_c13_cc {
     /// get_pto(epoch) == base_pto(pto_count) [+ max_ack_delay * 2^pto_count in the application space]
     #[kani::proof]
     #[kani::stub(tokio::time::Instant::now, any_instant)]
+    #[kani::stub(qevent::telemetry::macro_support::build_and_emit_event, noop_emit)]
     fn get_pto_contract() {
         let mad = any_max_ack_delay();
         let (mut cc, _) = fresh_cc(mad);
@@ -81,6 +82,7 @@ mod verif_c13_cc {
     /// count goes up by exactly one and is what the caller gets back.
     #[kani::proof]
     #[kani::stub(tokio::time::Instant::now, any_instant)]
+    #[kani::stub(qevent::telemetry::macro_support::build_and_emit_event, noop_emit)]
     fn pto_timeout_contract() {
         let (mut cc, hs) = fresh_cc(any_max_ack_delay());
         let c: u32 = kani::any();
@@ -107,6 +109,7 @@ mod verif_c13_cc {
     /// tick fail (Path::drive propagates the error and the path is given up) -- "until the connection is abandoned".
     #[kani::proof]
     #[kani::stub(tokio::time::Instant::now, any_instant)]
+    #[kani::stub(qevent::telemetry::macro_support::build_and_emit_event, noop_emit)]
     fn do_tick_contract() {
         let (mut cc, _) = fresh_cc(any_max_ack_delay());
         let c: u32 = kani::any();
